@@ -690,6 +690,8 @@ class PipeSock(object):
             raise OSError(errno.EBADF, "closed double")
         if self.tx.closed:
             raise ConnectionResetError(errno.ECONNRESET, "peer gone")
+        if not data:
+            return 0
         self.sends += 1
         k = len(data) if self.allow is None else min(len(data), self.allow(len(data)))
         if k <= 0:
@@ -804,6 +806,8 @@ def loop_server(store, timeout=None):
     if not srv.reopen():
         raise RuntimeError("cannot open loopback server")
     srv.eha = srv.ha          # eha was computed from port 0 before bind
+    # no Nagle / delayed-ACK stalls (40 ms of real time per small write would turn service-call bounds into wall-clock bounds)
+    srv.ss.setsockopt(socket.IPPROTO_TCP, socket.TCP_NODELAY, 1)
     return srv
 
 
@@ -1062,6 +1066,7 @@ class Pair(object):
         else:
             conn = Client(ha=("127.0.0.1", self.port), store=self.store)
             conn.reopen()
+            conn.cs.setsockopt(socket.IPPROTO_TCP, socket.TCP_NODELAY, 1)
         p = clienting.Patron(connector=conn, store=self.store, hostname="127.0.0.1", port=self.port, **kwa)
         self.patrons.append(p)
         return p
